@@ -194,6 +194,34 @@ def gen_gradle(rng):
     return "\n\n".join(lines) + "\n", stmts, exp
 
 
+# statements a real build.gradle contains, inside and outside the dependencies block (Groovy DSL)
+SOUP = ["def ver = '1.0'", "ver = 3", "ext.kotlin = '1.9'", "String s", "int k = 3", "println 'x'", "println \"v=$ver\"", "apply plugin: 'java'",
+        "apply from: 'other.gradle'", "group = 'com.x'", "version '1.0'", "sourceCompatibility = JavaVersion.VERSION_17", "foo", "foo()", "x.y.z", "x.y.z()",
+        "return", "assert ver != null", "import org.x.Y", "throw new GradleException('no')", "if (flag) {\n%s\n}", "if (a) {\n%s\n} else {\n%s\n}",
+        "for (p in projects) {\n%s\n}", "while (false) {\n%s\n}", "try {\n%s\n} catch (Exception e) {\n%s\n}", "plugins {\n    id 'java'\n    id 'x' version '1'\n}",
+        "repositories {\n    mavenCentral()\n    maven { url 'https://x' }\n}", "task foo {\n%s\n}", "task bar(type: Copy) {\n    from 'a'\n    into 'b'\n}",
+        "tasks.withType(JavaCompile) {\n%s\n}", "tasks.named('test') {\n    useJUnitPlatform()\n}", "test {\n    useJUnitPlatform()\n}", "java {\n    toolchain {\n%s\n    }\n}",
+        "configurations.all {\n%s\n}", "configurations {\n    extra\n}", "allprojects {\n%s\n}", "subprojects {\n%s\n}", "buildscript {\n%s\n}", "ext {\n    v = '1'\n}",
+        "dependencies {\n%s\n}", "dependencies{\n%s\n}", "dependencies {\n}", "constraints {\n%s\n}", "implementation 'a:b:1'", "implementation \"a:b:$ver\"", "implementation('a:b') {\n    exclude group: 'c'\n}",
+        "implementation platform('a:b:1')", "implementation project(':x')", "implementation(project(':x'))", "implementation files('a.jar', 'b.jar')", "implementation fileTree(dir: 'libs', include: ['*.jar'])",
+        "implementation group: 'a', name: 'b', version: '1'", "implementation libs.guava", "implementation 'a:b', 'c:d'", "implementation(['a:b', 'c:d'])", "testImplementation(platform('a:b'))",
+        "add('implementation', 'a:b')", "implementation 'nocolon'", "implementation()", "implementation ''", "implementation \"\"", "implementation 'a:b:1:cls@jar'", "runtimeOnly(\"a:b\")",
+        "api 'a:b'; implementation 'c:d'", "[1, 2].each { println it }", "def m = [a: 1, b: 2]", "def c = { x -> x + 1 }", "x = y ? 1 : 2", "x += 1", "list << 'a'", "assert 1 == 1 : 'msg'",
+        "class Foo {\n    String n\n}", "@Grab('a:b')\nimport x.Z", "wrapper { gradleVersion = '8' }", "dependencies.add('api', 'a:b')", "project.dependencies {\n%s\n}",
+        "// comment", "/* block */", "/** doc */", "", "'just a string'", "\"gstring ${x}\"", "1 + 2", "new File('x').text", "this.foo = 1", "super.foo()", "a.b { c { d 'e' } }"]
+
+
+def soup(rng, depth=0):
+    out = []
+    for _ in range(rng.choice([1, 2, 3, 5])):
+        s = rng.choice(SOUP)
+        while "%s" in s:
+            inner = soup(rng, depth + 1) if depth < 2 else "println 'deep'"
+            s = s.replace("%s", "\n".join("    " + l for l in inner.split("\n")), 1)
+        out.append(s)
+    return "\n".join(out)
+
+
 def gen(rng, tier):
     nsh, per = (16, 50) if tier == "quick" else (32, 1200)
     shards = []
@@ -232,6 +260,9 @@ def gen(rng, tier):
                         {"NodeName": "B", "Package": "p", "Imports": [{"Source": i} for i in imports[len(imports) // 2 + 1:]]}]
                 exp = [d for d in declared if not any(d["GroupId"] in i for i in imports)]
                 sh.append({"op": "unused", "files": files, "poms": poms, "gradles": gradles, "imports": imports, "clzs": clzs, "expected": exp})
+        # any Gradle script must be survived: the declared dependencies cannot be extracted from a crash
+        for i in range(per // 2):
+            sh.append({"op": "gradlesoup", "text": soup(rng) + "\n"})
         shards.append(sh)
     return shards
 
@@ -239,6 +270,8 @@ def gen(rng, tier):
 def oracle(case, out, raw):
     if out is None or "panic" in out:
         return [("panic", "%s extraction panicked at %s: %s" % (case["op"], (raw or {}).get("site"), (raw or {}).get("panic")))]
+    if case["op"] == "gradlesoup":
+        return []
     if out["deps"] != case["expected"]:
         got, exp = out["deps"], case["expected"]
         return [("deps-differ", "got %s expected %s" % (str(got)[:300], str(exp)[:300]))]
